@@ -1,3 +1,5 @@
+\* C32 thorough: 1..3 workers, 0..4 tasks, <= 1 spurious wake-up.  1 607 442 distinct states.
+\* (checks/C32.py adds 4 workers x 2 tasks x 1 and 2 workers x 4 tasks x 2 spurious wake-ups in the thorough tier.)
 CONSTANTS MaxWorkers = 3
           MaxTasks = 4
           MaxSpurious = 1
